@@ -308,7 +308,7 @@ fn pool(ctx: &Ctx, tier: &str) -> Vec<PoolVal> {
 fn form_src(form: &str, n: usize) -> Option<String> {
     let names = ["a", "b", "c"];
     let args = names[..n].join(", ");
-    if let Some(pat) = form.strip_prefix("mix:").or_else(|| form.strip_prefix("lmix:")) {
+    if let Some(pat) = form.strip_prefix("mix:").or_else(|| form.strip_prefix("lmix:")).or_else(|| form.strip_prefix("cmix:")) {
         // pieces consume the argument names left to right: L<k> plain, S<k> `...[..]`, H `_`, U<k> `..._`
         let (mut first, mut second, mut i) = (vec![], vec![], 0usize);
         for piece in pat.split('-') {
@@ -339,7 +339,11 @@ fn form_src(form: &str, n: usize) -> Option<String> {
         if i != n {
             return None;
         }
-        return Some(if form.starts_with("lmix:") {
+        return Some(if form.starts_with("cmix:") {
+            // the callee is a placeholder too: it is supplied first
+            second.insert(0, "f".to_string());
+            format!("_({})({})", first.join(", "), second.join(", "))
+        } else if form.starts_with("lmix:") {
             format!("[{}]({})", first.join(", "), second.join(", "))
         } else {
             format!("f({})({})", first.join(", "), second.join(", "))
@@ -396,6 +400,7 @@ fn forms_for(n: usize) -> Vec<&'static str> {
         1 => vec![
             "call", "bang", "sec0", "secall", "apply", "of", "splatAll", "splatTail", "dot", "dotgt", "then", "fwdDot",
             "mix:H-S0", "mix:S0-H", "mix:U1", "lmix:H-S0", "lmix:U1", "opself", "opselfg", "opidx", "opthrow",
+            "cmix:L1", "cmix:H", "cmix:S1", "cmix:U1", "cmix:H-S0", "cmix:S0-H",
         ],
         2 => vec![
             "call", "bang", "infix", "backtick", "sec0", "sec1", "secall", "chainR", "chainL", "chainBoth", "apply", "of",
@@ -403,11 +408,16 @@ fn forms_for(n: usize) -> Vec<&'static str> {
             // `_` / `..._` combined with `...[…]` spreads in every relative order
             "mix:H-S1", "mix:S1-H", "mix:L1-H-S0", "mix:H-S0-L1", "mix:S0-H-L1", "mix:U1-L1", "mix:L1-U1", "mix:U2",
             "mix:H-U1", "mix:S0-H-H", "lmix:H-S1", "lmix:S1-H", "lmix:U1-L1", "lmix:H-S0-L1",
+            // call sections whose callee is a placeholder too: 0..2 argument slots, literal / slot / splat mixes
+            "cmix:L2", "cmix:S2", "cmix:H-L1", "cmix:L1-H", "cmix:H-H", "cmix:H-S1", "cmix:S1-H", "cmix:U2", "cmix:U1-L1",
+            "cmix:L1-U1", "cmix:H-U1", "cmix:L1-S1",
         ],
         _ => vec![
             "call", "bang", "sec0", "sec1", "sec2", "secall", "apply", "of", "splatAll", "splatTail",
             "mix:H-S2", "mix:L1-H-S1", "mix:H-S1-H", "mix:S1-H-L1", "mix:S2-H", "mix:U2-L1", "mix:L1-U2", "mix:H-S0-L2",
             "mix:U1-S1-H", "lmix:H-S2", "lmix:L1-H-S1", "lmix:H-S1-H", "lmix:U2-L1",
+            "cmix:L3", "cmix:L1-H-L1", "cmix:H-L1-H", "cmix:H-H-H", "cmix:H-S2", "cmix:L1-U2", "cmix:S1-H-L1",
+            "cmix:U1-S1-H", "cmix:H-L2", "cmix:L2-H",
         ],
     }
 }
@@ -1315,7 +1325,8 @@ fn run_tuple(
             }
             "ref:ifSection" => {
                 // the clause is about functions of the global environment and data arguments
-                if c.is_leaf && data_args && one_arg_is_func && reference.starts_with("ok") {
+                // (also flipped functions: `flip(g)(b)(a) = flip(g)(a, b)`, theorem right_section_flip)
+                if (c.is_leaf || c.tokens.starts_with("FLIP ")) && data_args && one_arg_is_func && reference.starts_with("ok") {
                     reference.clone()
                 } else {
                     rust.clone()
